@@ -27,6 +27,17 @@ K_REUSE = ("value created in a sibling branch is named as a source (memoised cal
 K_SITE = ("two distinct run-time objects are represented by one abstract instance (allocation-site abstraction): "
           "an attribute update through one is overwritten by the (re)initialisation of the other")
 
+K_NOTRUN = ("value attributed to code that did not run: the lost binding's explanation depends on a source that "
+            "originates only at source lines CPython never executed (view de-duplication / memoised call result / "
+            "cached value from a branch not taken)")
+
+K_OUTSIDE_ATTR = ("method/function signature is inferred independently of call sites: an attribute stored on the "
+                  "instance from module level after construction is not reflected in the return type of a method that reads it")
+K_PARAM_REBOUND = ("container type parameter re-bound at a later node by a direct merge (dict.update fast path): the "
+                   "parameter bindings made at earlier nodes become invisible")
+K_INPLACE = ("augmented assignment on a name whose possible values differ in having the in-place dunder: only the "
+             "__iop__ alternative is evaluated (documented TODO in vm_utils.call_inplace_operator)")
+
 CAPTURE = {}
 _installed = False
 
@@ -94,6 +105,9 @@ def _cls_name(data):
 
 
 def _matches(data, shape):
+  if shape.get("k") == "class":
+    return getattr(data, "name", None) == shape.get("name") or str(getattr(data, "name", "")).endswith(
+        "." + str(shape.get("name")))
   n = _cls_name(data)
   if n in shape.get("mro", ()):
     return True
@@ -128,7 +142,101 @@ def _descend(var, path_item):
   return out
 
 
-def view_signature(ctx, var, path, leaf_shape, max_nodes=400):
+def _node_line(node):
+  parts = node.name.rsplit(":", 1)
+  if len(parts) == 2 and parts[1].isdigit():
+    return int(parts[1])
+  return None
+
+
+def _node_lines(node, depth=4):
+  """Own line, or (for unlabelled nodes such as NewBlock) the lines of the first labelled descendants."""
+  l = _node_line(node)
+  if l is not None:
+    return {l}
+  out = set()
+  frontier = [node]
+  seen = {node.id}
+  for _ in range(depth):
+    nxt = []
+    for x in frontier:
+      for y in x.outgoing:
+        if y.id in seen:
+          continue
+        seen.add(y.id)
+        ly = _node_line(y)
+        if ly is not None:
+          out.add(ly)
+        else:
+          nxt.append(y)
+    frontier = nxt
+    if not frontier:
+      break
+  return out
+
+
+def _call_site_lines(node, rng, limit=300):
+  """Lines of the nodes from which the CFG enters the function body [a,b] that contains `node`."""
+  a, b = rng
+  seen = {node.id}
+  todo = [node]
+  out = set()
+  while todo and len(seen) < limit:
+    x = todo.pop()
+    for p in x.incoming:
+      if p.id in seen:
+        continue
+      seen.add(p.id)
+      l = _node_line(p)
+      if l is None or a <= l <= b:
+        todo.append(p)
+      else:
+        out.add(l)
+  return out
+
+
+def notrun_signature(invisible, executed_lines, max_nodes=600, def_ranges=()):
+  """A source in the explanation chain all of whose origins lie at known, never-executed lines, or
+  inside a function body that the VM entered only from call sites on never-executed lines."""
+  executed = set(executed_lines)
+
+  def enclosing(line):
+    best = None
+    for a, b in def_ranges:
+      if a <= line <= b and (best is None or (b - a) < (best[1] - best[0])):
+        best = (a, b)
+    return best
+
+  seen = set()
+  todo = list(invisible)
+  steps = 0
+  while todo and steps < max_nodes:
+    b = todo.pop()
+    if b.id in seen:
+      continue
+    seen.add(b.id)
+    steps += 1
+    origins = list(b.origins)
+    if origins:
+      lsets = [_node_lines(o.where) for o in origins]
+      if all(ls and not (ls & executed) for ls in lsets):
+        return {"binding": f"{b.id} {str(b.data)[:40]}", "origin_nodes": [o.where.name for o in origins][:4],
+                "lines_not_executed": sorted(set().union(*lsets))}
+      lines = [_node_line(o.where) for o in origins]
+      if all(l is not None and enclosing(l) for l in lines):
+        sites = set()
+        for o, l in zip(origins, lines):
+          sites |= _call_site_lines(o.where, enclosing(l))
+        if sites and not (sites & executed):
+          return {"binding": f"{b.id} {str(b.data)[:40]}", "origin_nodes": [o.where.name for o in origins][:4],
+                  "callee_entered_only_from_unexecuted_call_sites": sorted(sites)}
+    for o in origins:
+      for ss in o.source_sets:
+        todo.extend(ss)
+  return None
+
+
+def view_signature(ctx, var, path, leaf_shape, max_nodes=400, executed_lines=None, def_ranges=()):
   """Looks for the lost value among the bindings reachable along `path`."""
   exitn = ctx.exitpoint
   vars_ = [var]
@@ -150,6 +258,10 @@ def view_signature(ctx, var, path, leaf_shape, max_nodes=400):
   if not invisible:
     return {"found": True, "invisible": False,
             "why": "a binding of the lost class is visible at exit (lost later, in output/optimisation)"}
+  if executed_lines is not None:
+    nr = notrun_signature(invisible, executed_lines, def_ranges=def_ranges)
+    if nr:
+      return {"found": True, "invisible": True, "notrun": nr}
   # search the explanation chain: an origin whose source set cannot be explained at its own node,
   # but could be if one source were replaced by an equivalent sibling (same variable, same class)
   seen = set()
@@ -215,4 +327,61 @@ def site_signature(ctx, defs, trace, gname):
     for bb in defs[other].bindings:
       if any(bb.data is i for i in insts):
         return {"shares_abstract_instance_with": other, "distinct_runtime_objects": True}
+  return None
+
+
+# ---------------------------------------------------------------------------
+# syntactic + run-time signatures for the remaining by-design mechanisms
+
+
+def def_ranges(tree):
+  import ast
+  return [(n.lineno, n.end_lineno) for n in ast.walk(tree)
+          if isinstance(n, (ast.FunctionDef, ast.Lambda, ast.AsyncFunctionDef))]
+
+
+def outside_attr_signature(tree, executed_lines):
+  """Module-level `x.attr = ...` statements that ran, for an attr that some method reads as self.attr."""
+  import ast
+  read = set()
+  for cls in [n for n in ast.walk(tree) if isinstance(n, ast.ClassDef)]:
+    for n in ast.walk(cls):
+      if isinstance(n, ast.Attribute) and isinstance(n.ctx, ast.Load) and isinstance(n.value, ast.Name) \
+          and n.value.id == "self":
+        read.add(n.attr)
+  hits = []
+  for st in tree.body:
+    for n in ast.walk(st) if not isinstance(st, (ast.FunctionDef, ast.ClassDef)) else ():
+      if isinstance(n, ast.Attribute) and isinstance(n.ctx, ast.Store) and n.attr in read \
+          and n.lineno in executed_lines:
+        hits.append((n.attr, n.lineno))
+  return hits
+
+
+def param_rebound_signature(tree, name, executed_lines):
+  """`name.update(<single positional arg>)` executed at module level (Dict.update_slot fast path)."""
+  import ast
+  for n in ast.walk(tree):
+    if isinstance(n, ast.Call) and isinstance(n.func, ast.Attribute) and n.func.attr == "update" \
+        and len(n.args) == 1 and n.lineno in executed_lines:
+      return {"update_call_line": n.lineno}
+  return None
+
+
+def inplace_signature(tree, name, executed_lines):
+  """The last executed module-level store to `name` is an augmented assignment."""
+  import ast
+  last = (0, None)
+  for st in ast.walk(tree):
+    targets = []
+    if isinstance(st, ast.Assign):
+      targets = st.targets
+    elif isinstance(st, (ast.AugAssign, ast.AnnAssign)):
+      targets = [st.target]
+    for t in targets:
+      for n in ast.walk(t):
+        if isinstance(n, ast.Name) and n.id == name and st.lineno in executed_lines and st.lineno >= last[0]:
+          last = (st.lineno, st)
+  if isinstance(last[1], ast.AugAssign):
+    return {"augassign_line": last[0]}
   return None
